@@ -271,7 +271,16 @@ pub fn token_json(t: &TokenWithLoc) -> J {
                 segs.iter()
                     .map(|s| match s {
                         FStringSegment::Lit(s) => json!({"s":cps(s)}),
-                        FStringSegment::Expr(e) => json!({"x":cps(e)}),
+                        // the embedded text and its own tokens ("xbad" when it does not tokenize): the grammar decides
+                        // whether that text is exactly one expression
+                        FStringSegment::Expr(e) => {
+                            let (toks, err) = tokenize(e);
+                            if err.is_some() {
+                                json!({"x":cps(e),"xbad":true})
+                            } else {
+                                json!({"x":cps(e),"xt":toks})
+                            }
+                        }
                     })
                     .collect(),
             ),
